@@ -22,6 +22,9 @@ use surf_n_term::{
 
 pub struct C16;
 
+/// set by `setup` for the slow instrumented flavours: only terminal sessions are generated
+static TERM_ONLY: std::sync::atomic::AtomicBool = std::sync::atomic::AtomicBool::new(false);
+
 #[derive(Clone, Debug, PartialEq, Eq, Hash, Serialize, Deserialize)]
 pub enum QOp {
     Write(usize),
@@ -508,7 +511,7 @@ impl Prop for C16 {
         // queue cases are cheap, terminal sessions take 10-300 ms: see gen() for the mix
         match (tier, flavour) {
             (_, "miri") => tier.pick(400, 4_000),
-            (_, "valgrind") => tier.pick(8, 64),
+            (_, "valgrind") | (_, "tsan") => tier.pick(8, 96),
             (Tier::Quick, _) => 48_000,
             (Tier::Thorough, _) => 1_600_000,
         }
@@ -516,8 +519,8 @@ impl Prop for C16 {
 
     fn gen(rng: &mut Rng, tier: Tier, _index: u64) -> Case {
         let term_share = if cfg!(miri) { 0 } else { 400 };
-        let valgrind = false;
-        if term_share > 0 && (valgrind || rng.below(term_share) == 0) {
+        let term_only = TERM_ONLY.load(std::sync::atomic::Ordering::Relaxed);
+        if term_share > 0 && (term_only || rng.below(term_share) == 0) {
             // terminal session
             let big = if tier.quick() { 120_000 } else { 300_000 };
             let n = rng.range(2, 10);
@@ -569,6 +572,12 @@ impl Prop for C16 {
             })
             .collect();
         Case::Queue { ops }
+    }
+
+    fn setup(ctx: &mut Ctx) {
+        if matches!(ctx.flavour.as_str(), "valgrind" | "tsan") {
+            TERM_ONLY.store(true, std::sync::atomic::Ordering::Relaxed);
+        }
     }
 
     fn check(case: &Case, ctx: &mut Ctx) -> Result<(), Fail> {
